@@ -49,6 +49,19 @@ Qed.
 Definition minimum (d : A) (l : list A) : A := hd d (sort l).
 Theorem C14_min_order_independent : forall d l l', Permutation l l' -> minimum d l = minimum d l'.
 Proof. intros d l l' P. unfold minimum. now rewrite (C14_sorted_order_independent l l' P). Qed.
+(* what sorted() returns is a function of the set alone: it has exactly the elements of the set ... *)
+Theorem C14_sorted_has_the_elements_of_the_set : forall l x, In x (sort l) <-> In x l.
+Proof. intros l x. split; apply Permutation_in; [apply Permutation_sym|]; apply sort_perm. Qed.
+(* ... and what min() returns is the least element of the set, which no iteration order can change: a member that is below every member *)
+Theorem C14_min_is_the_least_element : forall d l, l <> [] -> In (minimum d l) l /\ forall x, In x l -> le (minimum d l) x.
+Proof.
+  intros d l Hl. unfold minimum. pose proof (sort_perm l) as P. pose proof (sort_sorted l) as S.
+  destruct (sort l) as [|m r] eqn:E; [apply Permutation_sym, Permutation_nil in P; contradiction|]. cbn. split.
+  - apply (Permutation_in m (Permutation_sym P)). now left.
+  - intros x Hx. apply (Permutation_in x P) in Hx. inversion S as [|? ? _ F]; subst. destruct Hx as [<-|Hx].
+    + destruct (leb_total m m); assumption.
+    + exact (proj1 (Forall_forall _ _) F x Hx).
+Qed.
 End C14.
 Require Import GenPrelude FromTransformers Ctx FutTransform FutTransformProofs.
 (* the same for the transformer model that is compared with transformers.transform on every run (Model/FutTransform.v): the future predicates - one
@@ -62,3 +75,5 @@ Proof. exact bridges_sorted_and_exact. Qed.
 Print Assumptions C14_future_predicates_sorted_and_exact.
 Print Assumptions C14_sorted_order_independent.
 Print Assumptions C14_min_order_independent.
+Print Assumptions C14_sorted_has_the_elements_of_the_set.
+Print Assumptions C14_min_is_the_least_element.
